@@ -8,7 +8,7 @@ tprog.LAYOUTS = True      # leaves are handed over in C / Fortran / strided / ne
 PROP = 'C05'
 LEAN_TARGETS = ['Props.C05']
 REQUIRED_THEOREMS = ['Props.C05.flatten_spec', 'Props.C05.unfold_dim_spec', 'Props.C05.sum_spec', 'Props.C05.matmul_spec',
-                     'Props.C05.iteration_protocol', 'Props.C05.ctor_shape_forms', 'Props.C05.operator_forms']
+                     'Props.C05.iteration_protocol', 'Props.C05.ctor_shape_forms', 'Props.C05.operator_forms', 'Props.C05.transpose_spec', 'Props.C05.movedim_spec', 'Props.C05.reshape_spec', 'Props.C05.concat_spec', 'Props.C05.stack_spec', 'Props.C05.unbind_spec', 'Props.C05.index_spec', 'Props.C05.mul_spec', 'Props.C05.mean_spec', 'Props.C05.max_spec', 'Props.C05.squeeze_many_spec', 'Props.C05.unsqueeze_spec']
 RULE = ('forward of every tensor op on operand ranks 0-5 over the whole argument space (same generators as C01 with rank <= 5, plus '
         '~10 % malformed arguments: accept/reject must agree); operator and reflected-operator forms with Python scalars on float64 '
         'and float32 tensors; constructors in their three shape spellings, eye, arange, *_like; several simultaneous and nested '
